@@ -1391,6 +1391,10 @@ def run_case(env, case_seed, tier, counts, stream="clean", sibling=False):
         return rules_case(env, case_seed, tier, counts)
     if stream == "affine-nonaffine-sum":
         return nonaffine_sum_case(env, case_seed, tier, counts)
+    if stream == "multi-index":
+        return multi_index_case(env, case_seed, tier, counts)
+    if stream == "multi-index-grid":
+        return multi_index_grid_case(env, case_seed, tier, counts)
     rng = random.Random(case_seed)
     order = gen_signature(rng)
     if sibling:
@@ -1630,6 +1634,246 @@ def subs_order_case(env, case_seed, tier, counts):
         counts(f"subs-order:{label}:" + ("input-order" if in_order else "out-of-order"))
         n_ok += 1
     return n_ok, (case_seed, "subs-order"), dict(case_seed=case_seed, ops=["gaussian", "subs_real x all orders"])
+
+
+# ----------------------------------------------------------------------------------------------
+# multi-index stream: ONE substitution call that fixes / re-indexes TWO OR MORE batch inputs
+# ----------------------------------------------------------------------------------------------
+# (round 14, seed C12_14)  op_subs_int indexes exactly one batch input per call, so no chain ever reached
+# Gaussian._eager_subs_int with more than one (name, index) pair: any per-pair axis bookkeeping done there (axis
+# computed up front but applied after earlier pairs already removed / moved axes) was invisible.  This stream covers
+# the whole class: 2-4 batch inputs (equal sizes, so that a transposed or shifted axis is a WRONG VALUE, and mixed
+# sizes), real inputs before / after / between them, 2..all batch inputs substituted in one call with python ints,
+# funsor Numbers, Slices, renamings and index Tensors (over a fresh shared name or over an untouched batch input) in any
+# mixture, optionally together with a value for a real input; as kwargs, as Subs(g, pairs) in every order of the
+# pairs, one pair at a time, and split into two calls.  Oracle = the Gaussian's own defining data at the mapped
+# batch point (pointwise definition of substitution), never another funsor code path.
+
+MI_LAYOUTS = ["reals-last", "reals-first", "interleaved", "shuffled"]
+
+
+def _mi_order(rng, bnames, sizes, reals, layout):
+    b = [("b", k, n) for k, n in zip(bnames, sizes)]
+    r = [("r", k, s) for k, s in reals]
+    if layout == "reals-last":
+        return b + r
+    if layout == "reals-first":
+        return r + b
+    if layout == "interleaved":
+        out = []
+        for i in range(max(len(b), len(r))):
+            out += b[i:i + 1] + r[i:i + 1]
+        return out
+    out = b + r
+    rng.shuffle(out)
+    return out
+
+
+def _mi_check_variants(env, rng, cur, spec, exact, rank, pairs, mps, yfix, desc0, history, counts, variants_of,
+                       case_seed, stream, tier):
+    """Build the spec of the simultaneous substitution `pairs` and check every variant produced by variants_of."""
+    chosen = [k for k, _ in pairs if k in spec.batch]
+    batch = {k: n for k, n in spec.batch.items() if k not in chosen}
+    batch.update(desc0["new_batch"])
+    rest = OrderedDict((k, s) for k, s in spec.reals.items() if k not in yfix)
+
+    def at(p):
+        q = {k: p[k] for k in spec.batch if k not in chosen}
+        for k in chosen:
+            q[k] = mps[k](p)
+        f = spec.at(q)
+        if not yfix:
+            return f
+        return lambda x: f(dict(yfix, **x))
+    fn = Fn(batch, rest, at)
+    rdim = sum(numel(sh) for sh in rest.values())
+    step_exact = exact and not (rdim and rank > 2 * rdim)
+    # one-at-a-time / split variants re-construct an intermediate Gaussian over fewer real inputs; GaussianMeta
+    # compresses it with a QR (inexact) as soon as rank > 2 * its dim (same rule as op_subs_real's chained variant)
+    seq_exact = step_exact and (not yfix or rank <= 2 * (rdim + min(len(v) for v in yfix.values())))
+    n_ok = 0
+    for label, run in variants_of(pairs):
+        d = dict(desc0, op="subs_multi_int", variant=label)
+        d.pop("new_batch", None)
+        step = dict(spec=fn, desc=d, model=None)
+        this_exact = seq_exact if label.split(":")[0] in ("chained", "split") else step_exact
+        try:
+            res = run()
+        except DECLINE_ERRORS as e:
+            counts(f"multi-index:{label.split(':')[0]}:declined:{type(e).__name__}")
+            continue
+        try:
+            check_step(env, rng, res, step, this_exact, counts)
+        except Declined as e:
+            counts(f"multi-index:{label.split(':')[0]}:declined:{e}")
+            continue
+        except CaseFail as cf:
+            cf.kw["witness"] = dict(case_seed=case_seed, stream=stream, tier=tier, history=history + [d])
+            raise
+        counts(f"multi-index:{label.split(':')[0]}:ok")
+        n_ok += 1
+    return n_ok
+
+
+def _mi_variants(rng, cur, full=True):
+    def variants_of(pairs):
+        out = [("call", lambda: cur(**dict(pairs)))]
+        perms = list(itertools.permutations(pairs))
+        if len(perms) > 6:
+            perms = rng.sample(perms, 6)
+        if not full:
+            perms = [tuple(reversed(pairs))]
+        for perm in perms:
+            out.append(("subs:" + ",".join(k for k, _ in perm), lambda perm=perm: Subs(cur, tuple(perm))))
+        if full:
+            def chained(perm):
+                r = cur
+                for k, v in perm:
+                    r = r(**{k: v})
+                return r
+            for perm in rng.sample(perms, min(2, len(perms))):
+                out.append(("chained:" + ",".join(k for k, _ in perm), lambda perm=perm: chained(perm)))
+            if len(pairs) > 2:
+                cut = rng.randint(1, len(pairs) - 1)
+                sh = list(pairs)
+                rng.shuffle(sh)
+                out.append(("split:%d" % cut, lambda sh=sh, cut=cut: cur(**dict(sh[:cut]))(**dict(sh[cut:]))))
+        return out
+    return variants_of
+
+
+def multi_index_case(env, case_seed, tier, counts):
+    """Random member of the multi-index class (see the block comment above)."""
+    rng = random.Random(case_seed)
+    nb = rng.choice([2, 3, 3, 3, 4])
+    if rng.random() < 0.65:
+        sizes = [rng.choice([2, 2, 3])] * nb
+        counts("multi-index:sizes:equal")
+    else:
+        sizes = [rng.choice([1, 2, 2, 3]) for _ in range(nb)]
+        counts("multi-index:sizes:mixed")
+    bnames = rng.sample(BATCH_NAMES, nb)
+    reals = [(k, rng.choice([(), (), (2,), (1,)])) for k in rng.sample(REAL_NAMES, rng.choice([1, 1, 2]))]
+    layout = rng.choice(MI_LAYOUTS)
+    order = _mi_order(rng, bnames, sizes, reals, layout)
+    dim = sum(numel(s) for _, s in reals)
+    try:
+        cur, spec, exact, desc = make_gaussian(rng, order, rank=rng.randint(0, 2 * dim + 1))
+    except DECLINE_ERRORS as e:
+        counts("multi-index:construct:declined:" + type(e).__name__)
+        return 0, None, None
+    rank = desc["rank"]
+    border = [k for kind, k, _ in order if kind == "b"]
+    chosen = rng.sample(border, rng.randint(2, nb))
+    chosen.sort(key=border.index)
+    unchosen = [k for k in border if k not in chosen]
+    all_int = rng.random() < 0.45
+    fresh = ["m", "n", "o", "q", "a"]
+    shared, shared_n = "s", rng.choice([1, 2, 3])
+    new_batch, pairs, mps, kinds, descs = {}, [], {}, [], {}
+    for i in chosen:
+        n = spec.batch[i]
+        kind = rng.choice(["int", "number"] if all_int else
+                          ["int", "number", "slice", "var", "name", "tensor-shared", "tensor-shared", "tensor-existing"])
+        if kind == "tensor-existing" and not unchosen:
+            kind = "tensor-shared"
+        if kind in ("int", "number"):
+            v = rng.randrange(n)
+            val = v if kind == "int" else Number(v, n)
+            mps[i], descs[i] = (lambda p, v=v: v), dict(kind=kind, index=v)
+        elif kind == "slice":
+            j = fresh.pop(0)
+            start = rng.randrange(n)
+            stop = rng.randint(start + 1, n)
+            stp = rng.choice([1, 1, 2])
+            size = (stop + stp - 1 - start) // stp
+            val = Slice(j, start, stop, stp, n)
+            new_batch[j] = size
+            mps[i], descs[i] = (lambda p, j=j, start=start, stp=stp: start + stp * p[j]), dict(kind=kind, slice=[j, start, stop, stp, n])
+        elif kind in ("var", "name"):
+            j = fresh.pop(0)
+            val = Variable(j, Bint[n]) if kind == "var" else j
+            new_batch[j] = n
+            mps[i], descs[i] = (lambda p, j=j: p[j]), dict(kind=kind, to=j)
+        else:
+            if kind == "tensor-shared":
+                j, m = shared, shared_n
+                new_batch[j] = m
+            else:
+                j = rng.choice(unchosen)
+                m = spec.batch[j]
+            ind = [rng.randrange(n) for _ in range(m)]
+            val = Tensor(np.array(ind), OrderedDict([(j, Bint[m])]), n)
+            mps[i], descs[i] = (lambda p, j=j, ind=ind: ind[p[j]]), dict(kind=kind, tensor=[j, ind])
+        kinds.append(kind)
+        pairs.append((i, val))
+    yfix = {}
+    if rng.random() < 0.25:
+        for y in rng.sample([k for k, _ in reals], rng.randint(1, len(reals))):
+            arr = dy_array(rng, spec.reals[y])
+            pairs.append((y, Tensor(arr)))
+            yfix[y] = [F(float(v)) for v in arr.reshape(-1)]
+            descs[y] = dict(kind="real-value", data=arr.tolist())
+        counts("multi-index:with-real-value")
+    counts("multi-index:kinds:" + ("all-int" if all(k in ("int", "number") for k in kinds) else "mixed"))
+    counts(f"multi-index:n-indexed:{len(chosen)}-of-{nb}")
+    counts("multi-index:layout:" + layout)
+    if len(chosen) >= 2 and border.index(chosen[1]) < len(border) - 1:
+        counts("multi-index:batch-input-right-of-second-index")
+    desc0 = dict(pairs=descs, new_batch=new_batch)
+    n_ok = _mi_check_variants(env, rng, cur, spec, exact, rank, pairs, mps, yfix, desc0, [desc], counts,
+                              _mi_variants(rng, cur), case_seed, "multi-index", tier)
+    return n_ok, (case_seed, "multi-index"), dict(case_seed=case_seed, ops=["gaussian", "subs_multi_int x variants"])
+
+
+def multi_index_grid():
+    """Enumerated part: 3 batch inputs of one size n in {2, 3}, every real/batch layout, every subset of >= 2 of the
+    batch inputs; inside one case EVERY combination of plain integer indices is checked."""
+    return [(layout, n, sub) for layout in MI_LAYOUTS[:3] for n in (2, 3)
+            for sub in ((0, 1), (0, 2), (1, 2), (0, 1, 2))]
+
+
+def multi_index_grid_case(env, case_seed, tier, counts):
+    grid = multi_index_grid()
+    layout, n, sub = grid[case_seed % len(grid)]
+    rng = random.Random(case_seed)
+    bnames = ["i", "j", "k"]
+    reals = [("x", ()), ("y", (2,))]
+    order = _mi_order(rng, bnames, [n] * 3, reals, layout)
+    cur, spec, exact, desc = make_gaussian(rng, order, rank=rng.choice([1, 2, 3, 4]))
+    rank = desc["rank"]
+    n_ok = 0
+    for vals in itertools.product(range(n), repeat=len(sub)):
+        pairs = [(bnames[a], (v if rng.random() < 0.7 else Number(v, n))) for a, v in zip(sub, vals)]
+        mps = {bnames[a]: (lambda p, v=v: v) for a, v in zip(sub, vals)}
+        desc0 = dict(pairs={bnames[a]: dict(kind="int", index=v) for a, v in zip(sub, vals)}, new_batch={})
+        n_ok += _mi_check_variants(env, rng, cur, spec, exact, rank, pairs, mps, {}, desc0, [desc], counts,
+                                   _mi_variants(rng, cur, full=False), case_seed, "multi-index-grid", tier)
+    counts("multi-index-grid:configs")
+    counts("multi-index-grid:index-tuples", n ** len(sub))
+    return n_ok, (case_seed % len(grid), "multi-index-grid"), dict(case_seed=case_seed, grid=[layout, n, list(sub)])
+
+
+def multi_index_stream(ctx, env, n):
+    for gi in range(len(multi_index_grid())):
+        seed = gi + len(multi_index_grid()) * ctx.rng.getrandbits(32)
+        try:
+            nsteps, key, sample = run_case(env, seed, ctx.tier, ctx.count, stream="multi-index-grid")
+        except CaseFail as cf:
+            report(ctx, cf, "multi-index-grid")
+            continue
+        if nsteps:
+            ctx.case(sample=sample, nontrivial_key=key)
+    for _ in range(n):
+        seed = ctx.rng.getrandbits(48)
+        try:
+            nsteps, key, sample = run_case(env, seed, ctx.tier, ctx.count, stream="multi-index")
+        except CaseFail as cf:
+            report(ctx, cf, "multi-index")
+            continue
+        if nsteps:
+            ctx.case(sample=sample, nontrivial_key=key)
+            ctx.count("multi-index:cases")
 
 
 def result_image(res):
@@ -2028,7 +2272,10 @@ def _correspond(ctx, use_driver=True, volume=None):
                 "align, affine substitution (15 expression forms, shared/new variables), Cat along a batch input "
                 "(rank padding), plate fusion; plus a stream of real substitutions into Gaussians with 3-4 real inputs "
                 "(>= 2 grounded, >= 1 free) given as kwargs, as Subs(g, pairs) in every permutation of the pairs, and "
-                "chained through a lazy first step.  Non-trivial = at least one operation checked after construction; "
+                "chained through a lazy first step; plus a multi-index stream: ONE call substituting 2..all of 2-4 batch "
+                "inputs (equal and mixed sizes, every real/batch layout) with ints / Numbers / Slices / renamings / index "
+                "Tensors, as kwargs, Subs in every pair order, one at a time and split, incl. an enumerated grid of all "
+                "integer index tuples over 3 equal-size batch inputs.  Non-trivial = at least one operation checked after construction; "
                 "distinct by seed and operation sequence.")
     env = Env(ctx, use_driver)
     n = volume or (600 if ctx.tier == "quick" else 10000)
@@ -2053,6 +2300,7 @@ def _correspond(ctx, use_driver=True, volume=None):
             continue
         if nsteps:
             ctx.case(sample=sample, nontrivial_key=key)
+    multi_index_stream(ctx, env, 80 if ctx.tier == "quick" else 1200)
     triangular_ops_stream(ctx, 30 if ctx.tier == "quick" else 300)
     history_stream(ctx, env, 40 if ctx.tier == "quick" else 800)
     for _ in range(30 if ctx.tier == "quick" else 500):
